@@ -544,7 +544,7 @@ class TupleOf(Ty):
 class Rec(Ty):
     """Record with named, typed fields. `pycls` ("module:qualname") lets replay rebuild the real object."""
 
-    def __init__(self, name, pycls=None, as_dict=False, cls=None, closed=False, optkeys=False, **fields):
+    def __init__(self, name, /, pycls=None, as_dict=False, cls=None, closed=False, optkeys=False, **fields):
         self.name = name
         self.fields = dict(fields)
         self.pycls = pycls
